@@ -1,9 +1,10 @@
 (* Extraction of the C07 model.  ExtrOcamlBasic only: nat, Z, positive stay Coq datatypes. *)
 Require Extraction.
 Require Import ExtrOcamlBasic.
-From Algo.C07 Require Import Model.
+From Algo.C07 Require Import Model ProofsRef.
 Extraction Language OCaml.
 Extraction "model.ml"
   Selection Insertion Shell Merge MergeRec QuickCore Quick partition merge_run SelectCore Select
   Quick3Way Heap Shuffle
-  LSDString LSDInt LSDUint MSDString MSDInt MSDUint Quick3WayStringCore Quick3WayString.
+  LSDString LSDInt LSDUint MSDString MSDInt MSDUint Quick3WayStringCore Quick3WayString
+  ref_sort str_leb Z.leb.
